@@ -84,7 +84,13 @@ fn gen_op<S: Scheme>(tx: &Tx<S>, rng: &mut ChaCha20Rng) -> Op<S> {
                 }
             }
             let mut evals = Evaluations::new();
-            for (l, (_, z)) in &qs {
+            let known = qs.clone();
+            if S::default_combinations() && rng.next_u32() % 2 == 0 {
+                // an entry naming none of the combinations (sorting before all of them): the default implementation
+                // skips it on both sides
+                qs.insert(("!spare".to_string(), ("zeta".to_string(), z1.clone())));
+            }
+            for (l, (_, z)) in &known {
                 let lc = lcs.iter().find(|x| &x.label == l).unwrap();
                 let mut v: FOf<S> = ark_ff::Zero::zero();
                 for (c, t) in lc.iter() {
